@@ -15,7 +15,7 @@ CLAIMED = {
                 text='Forward: every accepted tuple yields a legal non-hint non-reserved halfword that decodes to it; reverse: every legal halfword of each of the 27 forms is returned by the real encoder on its canonical operands (forall h as a 16-bit vector).',
                 note='Trusted: as C01; spec/rvc.py transcription of the RVC quadrant tables.', ref='DESIGN 4 C02'),
     'C07': dict(cat='proof', technique='contract-based deductive verification over unbounded integers (z3 Int) of sign_extend / relocate_hi / relocate_lo / Hi.eval / Lo.eval',
-                text='%hi fits 20 bits, %lo fits signed 12 bits, (hi<<12)+lo == v mod 2**32 for every integer v (no width bound); consumer encoders accept every result; pair lemma for lui/auipc + addi/load/store/jalr.',
+                text='relocate_hi / relocate_lo: %hi fits 20 bits, %lo fits signed 12 bits, (hi<<12)+lo == v mod 2**32 for every integer v (no width bound); Hi.eval / Lo.eval return that split of the CURRENT inner value for every 32-bit value in its negative or unsigned spelling (-2**31 <= v < 2**32; a refusal outside that range must be an AssemblerError); consumer encoders accept every result; pair lemma for lui/auipc + addi/load/store/jalr; no pass bakes a %hi/%lo computed before the layout is final.',
                 note='Trusted: CPython integer semantics as encoded (floor shifts, masks), z3.', ref='DESIGN 4 C07'),
 }
 
@@ -68,14 +68,14 @@ CLAIMED.update({
     'C15': _p('other', T_DED + ': exceptional frames of all 13 passes (every raising path is AssemblerError with the item line); bounded fault planting for the front end',
               'Proof over every pass and Item class with partial operations modelled (struct, int(), eval failures, register lookups); bounded: 60 faulty lines in 6 classes planted at positions, include depths 0-3, both modes.',
               'Escapes outside the property list (operand count, bad pack format, align 0) are observations. lex/parse/read_lines bounded.', 'DESIGN 4 C15'),
-    'C16': _p('other', T_DED + ': frame (modifies / determinism) obligations over the AST of all 243 functions + dynamic mutation frames from the pass step VCs; bounded call histories and hash seeds',
-              'Proof that no function writes module-level state, uses hidden state or a nondeterministic primitive, or iterates a set; bounded interleavings vs fresh processes, 4-8 hash seeds, table digests.',
+    'C16': _p('other', T_DED + ': frame (modifies / determinism) obligations over the AST of all 243 functions + dynamic mutation frames from the pass step VCs; bounded call histories, file-replacement histories and hash seeds',
+              'Proof that no function writes module-level state, uses hidden state (global/nonlocal, mutable default, memoising or unknown decorator) or a nondeterministic primitive, or iterates a set; bounded interleavings vs fresh processes, files replaced between calls (same length and mtime), 4-8 hash seeds, table digests.',
               'Flow-insensitive alias analysis (sufficient condition); Python eval can write a constant via := (observation).', 'DESIGN 4 C16'),
     'C17': _p('other', T_DED + ': effect-ordering obligations on every path of the real cli_main with arbitrary option values and assemble under contract; bounded subprocess runs',
               'Proof: writes only after assemble returned, no failure exit after a write, written content is the assembled bytes / label lines / bin2hex arguments. Bounded: entry point in subprocesses over the option lattice with faults in every pass, pre-existing files, independent Intel HEX reader.',
               'intelhex.bin2hex and argparse are dependencies (assumed); I/O errors of the writes themselves out of scope.', 'DESIGN 4 C17'),
     'C18': _p('other', T_DED + ' relative to an ASSUMED DfuSe device contract: request builders, sleep contract, loop-rule VCs of the erase/write loops for symbolic firmware length; bounded simulated device',
-              'Proof: request bytes, poll delay waited on every GETSTATUS, page arithmetic and address bounds for all lengths and variants, chunk = k-th page of the zero-padded image, no request while the last reported state is dfuDNBUSY. Bounded: real cli_main against a simulated device.',
+              'Proof (cli_main against the callee contract of dfu_get_status, itself proved): request bytes, poll delay waited on every GETSTATUS, page arithmetic and address bounds for all lengths and variants, chunk = k-th page of the zero-padded image, no request while the last reported state is dfuDNBUSY. Bounded: real cli_main against a simulated DfuSe device (NOR programming semantics on a flash that holds an older image, firmware contents with blank pages).',
               'Device behaviour is an assumption about hardware; polling termination not proved.', 'DESIGN 4 C18'),
     'C19': _p('other', T_DED + ': effect ordering (size guard dominates the first request) and loop-body obligation (an iteration completes only with STATUS_OK) on the real dfu.cli_main; bounded error injections',
               'Proof on every path with arbitrary GETSTATUS responses; bounded single/double error-status injections and oversize lengths against the simulated device.',
